@@ -151,7 +151,12 @@ class SeismicFileConverter(object):
                 print("SEG-Y file is unstructured and no geometry provided. Determining this may take some time...")
                 self.geom = None
         else:
-            if seismic.ilines is not None and len(seismic.ilines) == 1:
+            if seismic.ilines is not None and len(seismic.ilines) == 1 and len(seismic.xlines) == 1 \
+                    and seismic.tracecount > 1:
+                # One inline and one crossline number but many traces: a 2D SEG-Y whose traces
+                # differ in another header word (segyio reads e.g. varying offsets as a third axis)
+                self.geom = Geometry2d(seismic.tracecount)
+            elif seismic.ilines is not None and len(seismic.ilines) == 1:
                 # We have a 2D SEG-Y
                 self.geom = Geometry2d(seismic.xlines)
             elif seismic.xlines is not None and len(seismic.xlines) == 1:
